@@ -1,4 +1,5 @@
 mod catalog;
+mod derived;
 mod drip;
 mod dripcase;
 mod engine;
@@ -21,7 +22,9 @@ macro_rules! dispatch {
             "C02" => $f(&props::c02::C02, $($arg),*),
             "C08" => $f(&props::c08::C08, $($arg),*),
             "C09" => $f(&props::c09::C09, $($arg),*),
+            "C10" => $f(&props::c10::C10, $($arg),*),
             "C12" => $f(&props::c12::C12, $($arg),*),
+            "C19" => $f(&props::c19::C19, $($arg),*),
             _ => { eprintln!("unknown property {}", $id); 2 }
         }
     };
